@@ -233,6 +233,7 @@ def check_stream(st, rng, res, geom, big, edge=False):
         r2 = random.Random(rng.randrange(1 << 30))
         state = r2.getstate()
         recs = declib2.run_stream(dec.lib, st["dec2"], bname == "fast1", geom, blocks, maxblock, r2, salt)
+        bad = False
         for i, (b, rec) in enumerate(zip(blocks, recs)):
             n = len(b["content"])
             res["evals"] += 1
@@ -240,7 +241,14 @@ def check_stream(st, rng, res, geom, big, edge=False):
             if rec["ret"] != n or rec["img"][:n] != b["content"]:
                 fail(res, "prop_fail", "LZ4_decompress_safe_continue (%s geometry, block %d) returned %d (expected %d), content %s" %
                      (geom, i, rec["ret"], n, "equal" if rec["img"][:n] == b["content"] else "DIFFERS"), geom=geom, build=bname, block=i, blk=b["blk"].hex()[:4000])
+                bad = True
                 break
+        # the property is judged over the whole stream first: a model/code disagreement on an early block does not hide
+        # the failing block behind it
+        for i, (b, rec) in enumerate(zip(blocks, recs)):
+            if bad:
+                break
+            n = len(b["content"])
             m = rec["model"]
             if m is not None and (m[0] != rec["ret"] or m[1] != "ok" or tuple(m[2]) != tuple(rec["state"]) or m[3] != md5(rec["img"])):
                 fail(res, "corr_fail", "stream model/code disagree (%s geometry, block %d): model ret=%d %s state=%s, code ret=%d state=%s, image %s" %
@@ -250,6 +258,7 @@ def check_stream(st, rng, res, geom, big, edge=False):
         # deprecated LZ4_decompress_fast_continue over the same stream (model: Model/DecFast.v, on one build)
         r2.setstate(state)
         recs = declib2.run_stream(dec.lib, st["dec2"], bname == "fast1", geom, blocks, maxblock, r2, salt, use_fast_api=True, want_model=(bname == "fast1" and (geom != "ring" or len(blocks) <= 12)))
+        bad = False
         for i, (b, rec) in enumerate(zip(blocks, recs)):
             n = len(b["content"])
             res["evals"] += 1
@@ -257,7 +266,12 @@ def check_stream(st, rng, res, geom, big, edge=False):
             if rec["ret"] != len(b["blk"]) or rec["img"][:n] != b["content"]:
                 fail(res, "prop_fail", "LZ4_decompress_fast_continue (%s geometry, block %d) returned %d (expected %d), content %s" %
                      (geom, i, rec["ret"], len(b["blk"]), "equal" if rec["img"][:n] == b["content"] else "DIFFERS"), geom=geom, build=bname, block=i, blk=b["blk"].hex()[:4000])
+                bad = True
                 break
+        for i, (b, rec) in enumerate(zip(blocks, recs)):
+            if bad:
+                break
+            n = len(b["content"])
             m = rec["model"]
             if m is not None and (m[0] != rec["ret"] or m[1] != "ok" or tuple(m[2]) != tuple(rec["state"]) or m[3] != md5(rec["img"])):
                 fail(res, "corr_fail", "fast stream model/code disagree (%s geometry, block %d): model ret=%d %s state=%s, code ret=%d state=%s, image %s" %
